@@ -1146,6 +1146,23 @@ def route_alphabet() -> List[dict]:
     ]
 
 
+def self_alphabet() -> List[dict]:
+    """Bounded-exhaustive family for a node that reaches ITSELF through its gateway (routed topology, power durations 0 so that the
+    node changes state inside the command): client and server side are the same Terminal object."""
+    me = {"x": 1, "y": 1}
+    return [
+        dict(me, op="rlogin", u="admin", p="admin"),
+        dict(me, op="rcmd"),
+        dict(me, op="rcmd", cmd={"op": "shutdown"}),
+        dict(me, op="rcmd", cmd={"op": "reset"}),
+        dict(me, op="rcmd", cmd={"op": "svc", "s": "terminal", "v": "stop"}),
+        dict(me, op="rcmd", cmd={"op": "chpw", "u": "admin", "old": "admin", "new": "admin"}),
+        dict(me, op="rlogoff"),
+        {"op": "startup", "y": 1},
+        {"op": "tick"},
+    ]
+
+
 def medium_alphabet() -> List[dict]:
     """Bounded-exhaustive family on two routers in a chain (host 0 behind router 0, host 1 behind router 1): router power, ARP
     denied with empty caches, caches cleared, the reply direction of the terminal's port blocked at the far router, login, command,
